@@ -402,6 +402,51 @@ def check_inflight_prefetch(ld, kind, n, b, rngkind, seed, catch, res):
             return
 
 
+def check_refused_read(ld, kind, n, rngkind, seed, via, res):
+    """An iteration of a shuffled dataset WITHOUT keys is suspended; a keyed
+    read of the same object (items(), keys(), new(ds), a key lookup) is
+    attempted and refused; the suspended iteration goes on: still a
+    permutation.  A refused read is no use of the dataset."""
+    case = {'shuffle': kind, 'n': n, 'b': None, 'rng': rngkind, 'seed': seed,
+            'refused_read_during_suspended_iteration': via}
+    res.case(('refused', kind, n, rngkind, seed, via), n >= 2)
+    try:
+        ds = shuffled(ld, kind, n, None, rngkind, seed)
+        stage = ds.map(_ident) if seed % 2 else ds
+        it = iter(stage)
+        out = [next(it) for _ in range(min(n, 1 + seed % 3))]
+        refused = 0
+        for _ in range(2):
+            try:
+                if via == 'items':
+                    next(iter(stage.items()))
+                elif via == 'keys':
+                    stage.keys()
+                elif via == 'lookup':
+                    stage['k0']
+                elif via == 'items-of-filter':
+                    next(iter(stage.filter(lambda x: True).items()))
+                refused += 0
+            except BaseException:
+                refused += 1
+        out += list(it)
+        after = list(stage)
+    except BaseException as e:
+        res.violation('interleaved-raised', case, exc_sig(e),
+                      sig={'shuffle': kind, 'concurrent': False, 'refused_read': via})
+        return
+    if not refused:
+        return          # the read was served: another situation (two iterations)
+    res.count('suspended_iterations_with_a_refused_keyed_read')
+    for o in (out, after):
+        res.count('iterators_checked')
+        if not is_perm(o, n):
+            res.violation('not-a-permutation', case, {'suspended': out, 'after': after},
+                          sig={'shuffle': kind + ' with a refused keyed read',
+                               'concurrent': False})
+            return
+
+
 def check_compose(ld, how, kind, n, b, rngkind, seed, res):
     case = {'compose': how, 'shuffle': kind, 'n': n, 'b': b, 'rng': rngkind,
             'seed': seed}
@@ -526,6 +571,11 @@ def run_shard(spec, res):
                     'interleaving': [0, 0, 1, 0, 1, 1, 0, 1],
                     'note': 'iterator index of each successive next() call'})
         if kind == 'reshuffle':
+            for n in (2, 5, 9):
+                for s_ in range(4):
+                    for via in ('items', 'keys', 'lookup', 'items-of-filter'):
+                        for kk in ('reshuffle', 'once'):
+                            check_refused_read(ld, kk, n, spec['rng'], base + s_, via, res)
             for n in (0, 1, 2, 5, 9):
                 for s_ in range(3):
                     for catch in (None, True, Exception):
@@ -588,6 +638,9 @@ def replay(case, res):
     elif 'interleaving' in case:
         check_interleaved(ld, case['shuffle'], case['n'], case['b'], case['rng'],
                           case['seed'], tuple(case['interleaving']), res)
+    elif 'refused_read_during_suspended_iteration' in case:
+        check_refused_read(ld, case['shuffle'], case['n'], case['rng'], case['seed'],
+                           case['refused_read_during_suspended_iteration'], res)
     elif 'compose' in case:
         check_compose(ld, case['compose'], case['shuffle'], case['n'], case['b'],
                       case['rng'], case['seed'], res)
